@@ -100,6 +100,19 @@ def latents(rc):
         rc.ob(f"BayesianNetwork.simulate -> {call_name(c)}(include_latents={norm(kwarg(c, 'include_latents'))}, seed={norm(kwarg(c, 'seed'))})")
         if dotted(kwarg(c, "include_latents")) != "include_latents":
             rc.fail(sim, c, "simulate must forward include_latents to the sampler", construct="simulate include_latents")
+    # simulate samples from a WORKING model to which it adds helper nodes (virtual evidence children): whatever it returns is restricted to the nodes of the model
+    # itself — also when latents are requested (include_latents speaks about latent variables of the model, not about the helper columns)
+    work = {b_["_M"] for _n, b_ in tm.find_all(sim.node, "_M.add_edge(__V, __NV)") if b_["_M"] != "self"}
+    rets = [r for r in walk_no_nested(sim.node) if isinstance(r, ast.Return) and r.value is not None]
+    rc.ob(f"BayesianNetwork.simulate: helper nodes added to {sorted(work)}; {len(rets)} return(s)")
+    if not work or not rets:
+        raise AnalysisError("BayesianNetwork.simulate: working model / returns not found")
+    for r in rets:
+        own = any(isinstance(c, ast.Call) and call_name(c) == "nodes" and dotted(c.func.value) == "self" for c in ast.walk(r.value))
+        rc.ob(f"BayesianNetwork.simulate: `return {norm(r.value, 70)}` selects columns by self.nodes(): {own}")
+        if not own:
+            rc.fail(sim, r, f"simulate returns `{norm(r.value, 60)}` — every column of the working model, including the helper children it added for virtual evidence "
+                    "(`__X`), which are not variables of the model", construct="simulate returns helper columns")
 
 
 @rule("C07.seed", "the seed is installed before every random draw of the entry point; wrappers forward it", floor=6)
@@ -404,6 +417,35 @@ _GS = "        if seed is not None:\n            np.random.seed(seed)\n\n       
 def states(rc):
     from . import shared as _sh
     _sh.state_domain_rule(rc, ("pgmpy/sampling/",))
+    # the table that `_return_samples(T, state_names_map)` maps from state NUMBERS to state names at the end: every column stored into T holds numbers.  A column
+    # taken from a caller's data frame (state names, e.g. `partial_samples`) must be translated with name_to_no / get_state_no first — otherwise the final
+    # number->name mapping turns the given names into NaN and the children are sampled from columns indexed by names.
+    repo = rc.repo
+    n_tab = 0
+    for f in repo.all_functions():
+        if not f.file.startswith("pgmpy/sampling/") or f.cls is None:
+            continue
+        tabs = {norm(c.args[0]) for c in repo.calls_in(f) if call_name(c) == "_return_samples" and len(c.args) + len(c.keywords) >= 2 and isinstance(c.args[0], ast.Name)}  # with a number->name map (discrete samplers)
+        if not tabs:
+            continue
+        params = set(f.params[1:]) - {"size", "seed", "show_progress", "include_latents", "n_jobs"}
+        for st in walk_no_nested(f.node):
+            if not (isinstance(st, ast.Assign) and isinstance(st.targets[0], ast.Subscript) and norm(st.targets[0].value) in tabs):
+                continue
+            n_tab += 1
+            used = {x.id for x in ast.walk(st.value) if isinstance(x, ast.Name)} & params
+            def _is_tr(e):
+                return any((isinstance(x, ast.Attribute) and x.attr == "name_to_no") or (isinstance(x, ast.Call) and call_name(x) == "get_state_no") for x in ast.walk(e))
+            local_maps = {t.targets[0].id for t in walk_no_nested(f.node) if isinstance(t, ast.Assign) and isinstance(t.targets[0], ast.Name) and _is_tr(t.value)}
+            # translated: the caller's values are looked up in a name->number map (directly or through a local bound to one)
+            translated = _is_tr(st.value) or any(isinstance(x, ast.Subscript) and isinstance(x.value, ast.Name) and x.value.id in local_maps for x in ast.walk(st.value))
+            rc.ob(f"{f.qual}: column store `{norm(st, 70)}`: caller data {sorted(used) or 'none'}{', translated to numbers' if used and translated else ''}")
+            if used and not translated:
+                rc.fail(f, st, f"{f.qual}: `{norm(st, 70)}` stores the caller's values ({', '.join(sorted(used))}: state NAMES) into the table of state NUMBERS that "
+                        "`_return_samples` maps back to names: the given column comes back as NaN and children are sampled from CPD columns indexed by names",
+                        construct=f"{f.qual} caller names stored as numbers")
+    if n_tab < 4:
+        raise AnalysisError(f"C07.states: expected the column stores of forward and likelihood-weighted sampling, found {n_tab}")
 
 
 @rule("C07.defuse", "anchored files: no parameter is accepted and ignored (generic def-use detector, triaged exemptions)", floor=2)
@@ -412,6 +454,14 @@ def defuse(rc):
     _sh.defuse_rule(rc, _sh.anchor_files("C07"))
 
 MUTANTS = [
+    dict(kind="break", name="simulate-returns-helper-columns", file=BN, expect="C07.latents",
+         old="            return samples.loc[\n                :, [col for col in samples.columns if col in self.nodes()]\n            ].astype(\"category\")", new="            return samples.astype(\"category\")"),
+    dict(kind="break", name="partial-samples-names-stored-as-numbers", file=SP, expect="C07.states",
+         old="                name_to_no = self.model.get_cpds(node).name_to_no[node]\n                sampled[node] = [\n                    name_to_no[state] for state in partial_samples.loc[:, node].values\n                ]\n",
+         new="                sampled[node] = partial_samples.loc[:, node].values\n"),
+    dict(kind="twin", name="partial-samples-translated-by-get-state-no", file=SP,
+         old="                name_to_no = self.model.get_cpds(node).name_to_no[node]\n                sampled[node] = [\n                    name_to_no[state] for state in partial_samples.loc[:, node].values\n                ]\n",
+         new="                sampled[node] = [self.model.get_cpds(node).get_state_no(node, state) for state in partial_samples.loc[:, node].values]\n"),
     dict(kind="break", name="gibbs-kernel-state-number-as-name", file=SP, expect="C07.states",
          old="                    State(v, factor.no_to_name[v][s])\n", new="                    State(v, s)\n"),
     dict(kind="break", name="reduce-marg-name-or-number-fallback", file=SB, expect="C07.states",
